@@ -38,7 +38,8 @@ func init() {
 
 type Case struct {
 	c09.Case
-	Race bool `json:"race"`
+	Race      bool `json:"race"`
+	Interrupt bool `json:"interrupt"` // interrupted-transfer schedule (interrupt.go) instead of the plain one
 }
 
 type Obs struct {
@@ -53,6 +54,7 @@ type Obs struct {
 	ForceOK     bool     `json:"force_ok"`
 	RaceOK      bool     `json:"race_ok"`      // of two concurrent pushes against one head at most one wins; remote = a winner, closed
 	RaceWinners int      `json:"race_winners"`
+	Points      []Point  `json:"points"` // interrupted transfers: destination state after every injected failure
 	Notes       []string `json:"notes"`
 	ScriptErrs  []string `json:"script_errs"`
 }
@@ -117,13 +119,21 @@ func Run(raw json.RawMessage) (any, error) {
 	}
 	defer os.RemoveAll(dir)
 	url := "file://" + dir + "/remote"
+	if c.Interrupt {
+		o := &Obs{Graph: [][]int{}, Heads: []int{}, RemoteHas: []int{}, Points: []Point{}, Notes: []string{}, ScriptErrs: []string{}, RefsMatch: true, Closed: true}
+		o.NonFFRefuse, o.ForceOK, o.RaceOK = true, true, true
+		err := RunInterrupt(ctx, c, dir, o)
+		setPlan("", 0)
+		return o, err
+	}
 	e, err := util.NewEnv(true)
 	if err != nil {
 		return nil, err
 	}
 	defer e.Close()
 	s, _ := e.NewSession()
-	o := &Obs{Graph: [][]int{}, Heads: []int{}, RemoteHas: []int{}, Notes: []string{}, ScriptErrs: []string{}, RefsMatch: true, Closed: true}
+	o := &Obs{Graph: [][]int{}, Heads: []int{}, RemoteHas: []int{}, Points: []Point{}, Notes: []string{}, ScriptErrs: []string{}, RefsMatch: true, Closed: true}
+
 	must := func(sess *util.Session, qs ...string) {
 		for _, q := range qs {
 			if r := sess.Exec(q); r.Err != "" && !c09.Tolerated(q, r.Err) {
